@@ -538,6 +538,22 @@ func (e *Eval) call(n *Node) Val {
 				v = Val{T: "0", Sort: "Int"}
 			}
 			return Val{T: fmt.Sprintf("(store %s %s %s)", a.T, i.T, v.T), Sort: e.sortOf(a)}
+		case "cast":
+			// cast(ref, TypeName): view an object reference as *TypeName
+			v := e.eval(args[0])
+			var tn *ssa.Type
+			switch {
+			case args[1].Op == "ident" && e.pkg != nil:
+				tn, _ = e.pkg.Members[args[1].Name].(*ssa.Type)
+			case args[1].Op == "sel" && args[1].Args[0].Op == "ident":
+				if p := e.findPkg(args[1].Args[0].Name); p != nil {
+					tn, _ = p.Members[args[1].Name].(*ssa.Type)
+				}
+			}
+			if tn == nil {
+				e.fail("cast: unknown type %s", args[1])
+			}
+			return Val{T: v.T, Typ: types.NewPointer(tn.Type())}
 		case "tag":
 			v := e.eval(args[0])
 			return Val{T: "(i_tag " + v.T + ")", Sort: "Int"}
@@ -605,6 +621,26 @@ func (e *Eval) call(n *Node) Val {
 			return Val{T: fmt.Sprintf("(%s %s)", nm, strings.Join(as, " ")), Sort: uf.Ret}
 		}
 		e.fail("unknown function %s", nm)
+	}
+	if callee.Op == "sel" && callee.Args[0].Op == "ident" {
+		nm := callee.Args[0].Name
+		_, isBound := e.bound[nm]
+		_, isEnv := e.env[nm]
+		if !isBound && !isEnv {
+			if p := e.findPkg(nm); p != nil {
+				key := p.Pkg.Path() + "." + callee.Name
+				fs := x.db.Funcs[key]
+				fn := x.fnByKey[key]
+				if fs == nil || !fs.Pure || fn == nil {
+					e.fail("function %s has no pure contract", key)
+				}
+				var as []Val
+				for _, a := range args {
+					as = append(as, e.eval(a))
+				}
+				return x.pureApp(e.st, key, fn.Signature, Val{T: "0", Typ: types.Typ[types.Int]}, as)
+			}
+		}
 	}
 	if callee.Op == "sel" {
 		// pure method application recv.M(args)
